@@ -45,7 +45,9 @@ func DJBHash32(k string) uint32 {
 	var ks = *(*unsafe.Pointer)(unsafe.Pointer(&k))
 	for i := 0; i < len(k); i++ {
 		c := *(*byte)(rt.IndexPtr(ks, byteTypeSize, i))
-		hash = ((hash << 5) + hash + uint32(c))
+		// NOTICE: must stay in sync with native hash_DJB32(), which adds the bytes as (signed) chars:
+		// a byte >= 0x80 is sign-extended there
+		hash = ((hash << 5) + hash + uint32(int8(c)))
 	}
 	return hash
 }
